@@ -6,9 +6,10 @@
    * lib_impl_methods: the methods each trait impl of lib.rs defines.  The OS-RNG entry points (try_keygen, try_sign,
      try_hash_sign) are the provided methods of traits.rs, i.e. the _with_rng variants applied to OsRng; an override in the impl
      would bypass the context-length guard and the single 32-byte draw the theorems are about. *)
-Require Import ZArith List String. Import ListNotations.
-Require Import F204.Gen.Guards.
+Require Import ZArith List String Bool. Import ListNotations.
+Require Import F204.Gen.Guards F204.Gen.Features.
 Open Scope string_scope.
+Open Scope bool_scope.
 
 Lemma panic_sites_pinned : panic_sites =
 [
@@ -105,3 +106,29 @@ Lemma lib_impl_methods_pinned : lib_impl_methods =
   ("SerDes", "PublicKey", ["try_from_bytes"; "into_bytes"])
 ].
 Proof. reflexivity. Qed.
+
+(* hashing.rs - the XOF plumbing and the rejection samplers: calls, method calls, loops and index operations per function, in
+   source order.  The model of these functions (Impl/Hashing.v) mirrors exactly this structure: one squeeze per candidate, the
+   whole input absorbed piece by piece in one pass. *)
+Lemma hashing_skeleton_pinned : hashing_skeleton =
+[
+  ("h256_xof", ["Shake256::default"; ".for_each"; ".iter"; ".update"; ".finalize_xof"]);
+  ("g128_xof", ["Shake128::default"; ".for_each"; ".iter"; ".update"; ".finalize_xof"]);
+  ("sample_in_ball", [".expect"; "usize::try_from"; "h256_xof"; ".read"; "<for>"; "[]"; ".to_le_bytes"; ".read"; "<while>"; "usize::from"; "[]"; ".read"; "[]"; "[]"; "usize::from"; "[]"; "[]"; "[]"; "usize::from"; "[]"; "i32::from"; "debug_assert!"; ".sum"; ".map"; ".iter"; "usize::from"; "debug_assert!"; ".sum"; ".map"; ".iter"; ".expect"; ".try_into"]);
+  ("rej_ntt_poly", ["debug_assert_eq!"; ".sum"; ".map"; ".iter"; ".len"; "g128_xof"; "<while>"; ".read"; "coeff_from_three_bytes"; "[]"]);
+  ("rej_bounded_poly", ["debug_assert_eq!"; ".sum"; ".map"; ".iter"; ".len"; "h256_xof"; "<while>"; ".read"; "coeff_from_half_byte"; "[]"; "coeff_from_half_byte"; "[]"; "[]"; "[]"]);
+  ("expand_a", ["core::array::from_fn"; "core::array::from_fn"; "rej_ntt_poly"; "[]"]);
+  ("expand_s", ["core::array::from_fn"; "rej_bounded_poly"; "core::array::from_fn"; "rej_bounded_poly"; "debug_assert!"; ".all"; ".iter"; "is_in_range"; "debug_assert!"; ".all"; ".iter"; "is_in_range"]);
+  ("expand_mask", ["bit_length"; "debug_assert!"; "<for>"; ".expect"; "u16::try_from"; "h256_xof"; ".to_le_bytes"; ".read"; "[]"; ".expect"; "bit_unpack"; "[]"; "debug_assert!"; ".all"; ".iter"; "is_in_range"]);
+  ("hash_message", ["Sha256::new"; "Digest::update"; ".copy_from_slice"; "[]"; ".finalize"; "Sha512::new"; "Digest::update"; ".copy_from_slice"; ".finalize"; "Shake128::default"; ".update"; ".finalize_xof"; ".read"; "[]"])
+].
+Proof. reflexivity. Qed.
+
+(* conditional compilation (translator T6 lists every cfg gate of src/): outside lib.rs and traits.rs - where the parameter-set
+   modules, the OS-RNG entry points and the dudect entry point are gated - the only gates are the test modules.  A gate inside an
+   algorithm (e.g. a decoder check kept only under cfg(test) or under the hooks feature) would make the code that the harness
+   runs differ from the code users run. *)
+Lemma algorithm_files_have_no_cfg_gates :
+  forallb (fun g => match g with (file, cond, _, kind, name) =>
+             (String.eqb file "lib.rs" || String.eqb file "traits.rs") || (String.eqb cond "test" && String.eqb kind "mod" && String.eqb name "tests") end) gates = true.
+Proof. vm_compute. reflexivity. Qed.
